@@ -280,6 +280,8 @@ pub enum Deflater {
     Level(u32),
     /// fdeflate's fast compressor
     Fdeflate,
+    /// own fixed-Huffman emitter: matches at exactly this distance where the data repeats with that period
+    FixedDist(usize),
 }
 
 pub fn zlib_stream(data: &[u8], d: &Deflater) -> Vec<u8> {
@@ -309,6 +311,7 @@ pub fn zlib_stream(data: &[u8], d: &Deflater) -> Vec<u8> {
             e.finish().unwrap()
         }
         Deflater::Fdeflate => fdeflate::compress_to_vec(data),
+        Deflater::FixedDist(d) => fixed_huffman_zlib(data, (*d).clamp(1, 32768), 258),
     }
 }
 
@@ -625,4 +628,92 @@ pub fn random_ancillary(rng: &mut Rng, color: u8, depth: u8) -> Vec<RawChunk> {
         v.push(RawChunk::new(b"tRNS", d));
     }
     v
+}
+
+// ---------------------------------------------------------------------------------------------
+// own fixed-Huffman deflate emitter with chosen match distances (RFC 1951 section 3.2.6)
+
+struct BitWriter {
+    out: Vec<u8>,
+    acc: u64,
+    n: u32,
+}
+
+impl BitWriter {
+    fn bits(&mut self, v: u32, len: u32) {
+        // LSB first
+        self.acc |= (v as u64) << self.n;
+        self.n += len;
+        while self.n >= 8 {
+            self.out.push(self.acc as u8);
+            self.acc >>= 8;
+            self.n -= 8;
+        }
+    }
+    /// Huffman codes are packed most significant bit first
+    fn code(&mut self, code: u32, len: u32) {
+        let mut r = 0u32;
+        for i in 0..len {
+            if code & (1 << i) != 0 {
+                r |= 1 << (len - 1 - i);
+            }
+        }
+        self.bits(r, len);
+    }
+    fn litlen(&mut self, sym: u32) {
+        match sym {
+            0..=143 => self.code(0x30 + sym, 8),
+            144..=255 => self.code(0x190 + (sym - 144), 9),
+            256..=279 => self.code(sym - 256, 7),
+            _ => self.code(0xC0 + (sym - 280), 8),
+        }
+    }
+    fn finish(mut self) -> Vec<u8> {
+        if self.n > 0 {
+            self.out.push(self.acc as u8);
+        }
+        self.out
+    }
+}
+
+const LEN_BASE: [u32; 29] = [3, 4, 5, 6, 7, 8, 9, 10, 11, 13, 15, 17, 19, 23, 27, 31, 35, 43, 51, 59, 67, 83, 99, 115, 131, 163, 195, 227, 258];
+const LEN_EXTRA: [u32; 29] = [0, 0, 0, 0, 0, 0, 0, 0, 1, 1, 1, 1, 2, 2, 2, 2, 3, 3, 3, 3, 4, 4, 4, 4, 5, 5, 5, 5, 0];
+const DIST_BASE: [u32; 30] = [1, 2, 3, 4, 5, 7, 9, 13, 17, 25, 33, 49, 65, 97, 129, 193, 257, 385, 513, 769, 1025, 1537, 2049, 3073, 4097, 6145, 8193, 12289, 16385, 24577];
+const DIST_EXTRA: [u32; 30] = [0, 0, 0, 0, 1, 1, 2, 2, 3, 3, 4, 4, 5, 5, 6, 6, 7, 7, 8, 8, 9, 9, 10, 10, 11, 11, 12, 12, 13, 13];
+
+/// zlib stream, one fixed-Huffman block: literals where no match at distance `dist` exists, otherwise matches of
+/// up to `max_len` bytes at exactly that distance (1 <= dist <= 32768)
+pub fn fixed_huffman_zlib(data: &[u8], dist: usize, max_len: usize) -> Vec<u8> {
+    let mut w = BitWriter { out: vec![0x78, 0x01], acc: 0, n: 0 };
+    w.bits(1, 1); // BFINAL
+    w.bits(1, 2); // fixed Huffman
+    let max_len = max_len.clamp(3, 258);
+    let mut i = 0usize;
+    while i < data.len() {
+        let mut l = 0usize;
+        if i >= dist {
+            while l < max_len && i + l < data.len() && data[i + l] == data[i + l - dist] {
+                l += 1;
+            }
+        }
+        if l >= 3 {
+            let li = (0..29).rev().find(|&k| LEN_BASE[k] as usize <= l).unwrap();
+            // length 258 has its own code; lengths 227..257 use code 284 with extra bits
+            let li = if l == 258 { 28 } else if li == 28 { 27 } else { li };
+            let l = if li == 27 { l.min(257) } else { l };
+            w.litlen(257 + li as u32);
+            w.bits(l as u32 - LEN_BASE[li], LEN_EXTRA[li]);
+            let di = (0..30).rev().find(|&k| DIST_BASE[k] as usize <= dist).unwrap();
+            w.code(di as u32, 5);
+            w.bits(dist as u32 - DIST_BASE[di], DIST_EXTRA[di]);
+            i += l;
+        } else {
+            w.litlen(data[i] as u32);
+            i += 1;
+        }
+    }
+    w.litlen(256);
+    let mut out = w.finish();
+    out.extend_from_slice(&adler32(data).to_be_bytes());
+    out
 }
